@@ -101,9 +101,36 @@ theorem C07_nonfinite_refused (fl : Flags) (cell : Option Cell) (s : StructN)
     | inf neg => cases neg <;> exact ⟨by simp [fmtNum], by simp [checkNumCol, Num.isFinite]⟩
 
 /-- finite input is handled by the finite model all other theorems speak about -/
-theorem C07_finite_passthrough (fl : Flags) (cell : Option Cell) (s : StructN) (s' : Struct) (h : s.finite? fl = some s') :
-    writePdbN fl cell s = writePdbBox fl cell s' := by
-  simp [writePdbN, h]
+theorem C07_finite_passthrough (fl : Flags) (cell : Option Cell) (s : StructN) (s' : Struct) (h : s.finite? fl = some s')
+    (hne : s'.atoms ≠ []) : writePdbN fl cell s = writePdbBox fl cell s' := by
+  have : s'.atoms.isEmpty = false := by cases hs : s'.atoms with | nil => exact absurd hs hne | cons _ _ => rfl
+  simp [writePdbN, h, this]
+
+/-- **a structure without atoms is refused** (the excluded case `atoms ≠ []` of the theorems below): the box check still
+applies first (`BadStructureError`), otherwise NumPy refuses the empty character arrays (`ValueError`); nothing is written. -/
+theorem C07_empty_rejected (fl : Flags) (cell : Option Cell) (s : StructN) (s' : Struct) (h : s.finite? fl = some s')
+    (he : s'.atoms = []) :
+    writePdbN fl cell s = .error .valueError ∨ writePdbN fl cell s = .error .badStructure := by
+  simp only [writePdbN, h, he, List.isEmpty_nil, if_true]
+  cases cell with
+  | none => exact Or.inl rfl
+  | some u => by_cases hc : checkCell u = true <;> simp [hc]
+
+/-- **defect (hybrid36.pyx, known finding).**  Outside the canonical strings of `C07_h36_encode_decode` the decoder does
+not validate its characters: a letter of the wrong case is taken as a "digit" ≥ 36, so different strings decode to the
+same number and re-encoding does not give the string back (`A0a` and `A16` both give 1042). -/
+theorem C07_h36_decode_unvalidated_defect :
+    decodeH36 "A0a".toList = .ok 1042 ∧ decodeH36 "A16".toList = .ok 1042 ∧ encodeH36 1042 3 = .ok "A16".toList ∧
+    canonicalLetters asciiFirstUpper "A0a".toList = false := by decide
+
+/-- the charge field is read totally: blank is 0, otherwise `int()` of the (possibly reversed) two characters or a
+`ValueError` — the model never abstains here -/
+theorem C07_charge_field_total (s : List Char) : ∃ r, parseCharge s = some r := by
+  unfold parseCharge
+  split
+  · exact ⟨_, rfl⟩
+  · simp only
+    split <;> exact ⟨_, rfl⟩
 
 example : writePdbN ⟨false, false, false, false, false, false⟩ none
     { atoms := [], models := [[(.nan, .fin ⟨false, 0, 0⟩, .fin ⟨false, 0, 0⟩)]], bonds := [] } = .error .badStructure := by decide
@@ -139,6 +166,48 @@ theorem C07_columns (fl : Flags) (i : Nat) (a : Atom) (c : Coord) (idTxt resTxt 
     hcc.1.1 hcc.1.2 hcc.2 ho.1 hb.1 hq.1
     (firstHalf_ws a idTxt resTxt hcl hidf.2.2 hresf.2.2)
     (secondHalf_ws fl a hcl ho.2 hb.2 hq.2)
+
+/-- the record length does **not** need blank-free fields: with any characters (blanks, tabs) in the name fields an
+accepted record is still exactly 80 characters (`rstrip` + re-padding can only replace trailing white space by blanks) -/
+theorem C07_record_length (fl : Flags) (i : Nat) (a : Atom) (c : Coord) (idTxt resTxt : List Char)
+    (h : CompatStrong fl i a) (hc : CoordStrong c)
+    (hid : idText fl.h36 5 pdbMaxAtoms (effId fl i a) = .ok idTxt)
+    (hres : idText fl.h36 4 pdbMaxResidues a.resId = .ok resTxt) :
+    (atomLine (firstHalf a idTxt resTxt) (secondHalf fl a) c).length = 80 := by
+  have hidf := idText_length fl.h36 5 pdbMaxAtoms _ idTxt (by decide) (by decide)
+    (fun hf => by have := h.atomIdLo hf; simpa using this) hid
+  have hresf := idText_length fl.h36 4 pdbMaxResidues _ resTxt (by decide) (by decide)
+    (fun hf => by have := h.resIdLo hf; simpa using this) hres
+  have hcc := (checkCoord_iff c).2 hc
+  simp only [checkCoord, Bool.and_eq_true, decide_eq_true_eq] at hcc
+  have ho := (occText_facts fl i a h).1
+  have hb := (bfText_facts fl i a h).1
+  have hq := (chargeField_facts fl i a h).1
+  have hfh : (firstHalf a idTxt resTxt).length = 27 := by
+    rw [firstHalf_eq]
+    simp only [List.length_append, ljust_length 6 _ (recordName_length a), rjust_length 5 _ hidf.1,
+      ljust_length 4 _ (alignedName_length a h.name), rjust_length 3 _ h.resName, ljust_length 1 _ h.chain,
+      rjust_length 4 _ hresf.1, rjust_length 1 _ h.ins, List.length_singleton]
+  have hsh : (secondHalf fl a).length = 26 := by
+    rw [secondHalf_eq]
+    simp only [List.length_append, ho, hb, hq, rjust_length 2 _ h.element, List.length_replicate]
+  have hr : ∀ l : List Char, (rstrip l).length ≤ l.length := by
+    intro l; unfold rstrip
+    have hd : ∀ m : List Char, (m.dropWhile isWS).length ≤ m.length := by
+      intro m
+      induction m with
+      | nil => simp
+      | cons x xs ih =>
+        by_cases hx : isWS x = true
+        · rw [List.dropWhile_cons_of_pos hx]; simp only [List.length_cons]; omega
+        · rw [List.dropWhile_cons_of_neg hx]; exact Nat.le_refl _
+    have := hd l.reverse
+    simpa using this
+  have h1 := ljust_length 27 _ (by rw [← hfh]; exact hr _ : (rstrip (firstHalf a idTxt resTxt)).length ≤ 27)
+  have h2 := ljust_length 26 _ (by rw [← hsh]; exact hr _ : (rstrip (secondHalf fl a)).length ≤ 26)
+  unfold atomLine
+  simp only [List.length_append, h1, h2, rjust_length 8 _ hcc.1.1, rjust_length 8 _ hcc.1.2, rjust_length 8 _ hcc.2]
+  rfl
 
 /-- inside the hybrid-36 / plain id ranges the writer does not fail on an accepted atom -/
 theorem C07_ids_written (fl : Flags) (i : Nat) (a : Atom) (hr : IdsInRange fl i a) :
